@@ -63,15 +63,60 @@ def chain(kind, n):
         for i in range(1, n):
             t = ("or", t, ("not", v(i % 3)))
         return t
+    if kind == "any-not-and-or":  # any(~((P | u) & v)): exponential before fix cc7f1c3 (ANY4 re-optimised an optimised body)
+        t = v(0)
+        for i in range(1, n):
+            t = ("any", ("not", ("and", ("or", t, v(i + n)), v(i))))
+        return t
+    if kind == "and-all-chain":  # AND14-heavy, the worst constant found after the repair (about 0.3-0.4 size^2)
+        t = "notnone"
+        for i in range(max(1, n // 8)):
+            a = v(i)
+            for _ in range(8):
+                a = ("all", a)
+            t = ("and", a, ("all", t))
+        return t
+    if kind == "any-tower":  # any^k(ne 1): k(k+3)/2 invocations before the repair, k+1 after
+        t = ("ne", "2")
+        for _ in range(n):
+            t = ("any", t)
+        return t
     raise ValueError(kind)
 
 
-FAMILIES = ["xor-and", "and-or", "all-and", "not-xor", "balanced", "or-chain-neg"]
+FAMILIES = ["xor-and", "and-or", "all-and", "not-xor", "balanced", "or-chain-neg", "any-not-and-or", "and-all-chain", "any-tower"]
+
+
+def py_invocations(p):
+    """optimize(p) and the number of model-level invocations: calls of the dispatcher `optimize` plus the two direct
+    re-entries that bypass it (optimize_and_predicate / optimize_xor_predicate called from a rule, not from the dispatcher)."""
+    n = 0
+
+    def prof(frame, event, arg):
+        nonlocal n
+        if event != "call" or "optimizer" not in frame.f_code.co_filename:
+            return
+        name = frame.f_code.co_name
+        if name == "optimize":
+            n += 1
+        elif name in ("optimize_and_predicate", "optimize_xor_predicate"):
+            back = frame.f_back
+            if back is None or back.f_code.co_name != "optimize":
+                n += 1
+        if n > 5_000_000:
+            raise optcorr.CostExceeded("more than 5e6 invocations")
+
+    sys.setprofile(prof)
+    try:
+        o = optimize(p)
+    finally:
+        sys.setprofile(None)
+    return o, n
 
 
 def main(tier):
     chk = Check("C12", tier)
-    chk.prove(checker=(tier == "thorough"))
+    chk.prove(modules=["PyPred.Props.C12", "PyPred.Props.C12T"], checker=(tier == "thorough"), exes=("driver", "driver_cost"))
     rng = random.Random(chk.seed)
     cfg, detail = optcorr.detect_cfg()
     chk.extra["cfg"] = cfg
@@ -86,6 +131,32 @@ def main(tier):
     rep = list(cases.repeat_shapes(cases.mergeable_atoms()))
     for name, cs in (("opt/prop", prop), ("opt/scalar", scal), ("opt/repeated-atom", rep), ("opt/quantified", quant), ("opt/big-random", big), ("opt/print-alike-constants", cases.printalike_trees())):
         optcorr.run(chk, name, cs, cfg, never, share=True)
+    # 1b. the model's exact invocation counter (optimizeC, Model/OptimizeCost.lean) == the implementation's
+    from .. import driver
+
+    cc = prop[::2] + scal[:1500] + quant[:800] + big[:60] + [chain(f, n) for f in FAMILIES for n in (4, 8, 16, 24)]
+    out = driver.run((f"optc {cfg} {S.show(t)}" for t in cc), exe="driver_cost", src="DriverCost.lean")
+    cdis, worst = [], (0.0, None)
+    for t, line in zip(cc, out):
+        if line == "FUEL" or line.startswith("ERR"):
+            cdis.append({"input": S.show(t)[:300], "model": line})
+            continue
+        text, calls, _k = line.rsplit(" ", 2)
+        try:
+            o, n = py_invocations(lift.lower(t, {}))
+            ptxt = S.show(lift.lift(o))
+        except optcorr.CostExceeded as e:
+            ptxt, n = f"RAISED {e}", -1
+        except Exception as e:  # noqa: BLE001
+            ptxt, n = f"RAISED {type(e).__name__}", -1
+        if ptxt != text or int(calls) != n:
+            cdis.append({"input": S.show(t)[:300], "model": f"{text[:120]} calls={calls}", "implementation": f"{ptxt[:120]} calls={n}"})
+        r = int(calls) / (S.size(t) ** 2)
+        if S.size(t) >= 20 and r > worst[0]:
+            worst = (r, {"size": S.size(t), "invocations": int(calls), "input": S.show(t)[:120]})
+    chk.add_corr("cost/exact-invocation-count", len(cc), cdis, note="model optimizeC vs sys.setprofile count of optimize / direct re-entries")
+    chk.evaluations += len(cc)
+    chk.extra["worst_invocations_over_size_squared"] = {"ratio": round(worst[0], 3), **(worst[1] or {})}
     # 2. cost: number of optimize* invocations on growing families (measurement, not proof)
     sizes = [8, 16, 32, 64] + ([128, 256] if tier == "thorough" else [128])
     cost = {}
@@ -161,13 +232,13 @@ def main(tier):
     chk.extra["purity_sequences"] = nseq
     chk.extra["purity_calls"] = calls
     chk.extra["not_proved"] = (
-        "C12_terminates (for every tree there is a fuel for which optimizeT returns) and a polynomial bound are NOT proved; proved are fuel monotonicity and "
-        "determinism (a result, once produced, is the result for every larger fuel). Termination on the explored spaces is observed: the model never "
-        "answers FUEL within fuel 100000 and the implementation always returns a predicate; the call-count growth per family is a measurement."
+        "A polynomial bound on the number of optimize invocations is NOT proved (proved: termination, recursion depth <= 4*size+2, result never heavier, "
+        "a finite exponential bound on the count, a linear bound on the and/or/not fragment).  The growth per family is a measurement of the model's exact "
+        "counter, which is compared with the implementation's call count case by case."
     )
     chk.rule = (
         "termination: every propositional tree <= %d nodes, sampled scalar pair shapes, random quantified trees and %d random trees of 60-400 nodes, model vs "
-        "implementation (the model never out of fuel, the implementation never raising); cost: optimize* invocation counts on 6 growing families up to size ~%d; "
+        "implementation (the model never out of fuel, the implementation never raising); cost: the model's exact invocation counter == the implementation's on a sample of every space, and optimize* invocation counts on 9 growing families up to size ~%d against 20*size^2+2000 and a cubic growth test; "
         "purity: %d random sequences of optimize/can_optimize/negate/implies/to_json/to_dot/generate_true/generate_false on one shared object with a deep "
         "structural snapshot after every call and comparison with a fresh deep copy. non-trivial = distinct inputs changed by optimize."
         % (5 if tier == "quick" else 6, len(big), 3 * sizes[-1], nseq)
